@@ -503,6 +503,9 @@ pub fn gen_c02(rng: &mut Rng) -> Value {
 }
 
 pub fn gen_c05(rng: &mut Rng) -> Value {
+    if rng.chance(1, 14) {
+        return gen_bucket_mates("C05", rng);
+    }
     let long = rng.chance(1, 6);
     let m = Mix {
         check: "C05",
@@ -610,7 +613,72 @@ pub fn shard_mates() -> (u64, u64) {
     })
 }
 
+/// two keys whose buckets are neighbours in one index directory (index-v5/xx/yy/): their SHA-1 digests share the first
+/// two bytes; and a third key that only shares the first byte (index-v5/xx/)
+pub fn bucket_mates() -> (String, String, String) {
+    use std::sync::OnceLock;
+    static T: OnceLock<(String, String, String)> = OnceLock::new();
+    T.get_or_init(|| {
+        let mut seen: std::collections::BTreeMap<String, String> = std::collections::BTreeMap::new();
+        let mut pair: Option<(String, String)> = None;
+        let mut i = 0u64;
+        while pair.is_none() {
+            let k = format!("mate-{i}");
+            let h = crate::hash::sha1_hex(k.as_bytes());
+            if let Some(o) = seen.get(&h[0..4]) {
+                pair = Some((o.clone(), k.clone()));
+            }
+            seen.insert(h[0..4].to_string(), k);
+            i += 1;
+        }
+        let (a, b) = pair.unwrap();
+        let ha = crate::hash::sha1_hex(a.as_bytes());
+        let mut j = 0u64;
+        loop {
+            let k = format!("cousin-{j}");
+            let h = crate::hash::sha1_hex(k.as_bytes());
+            if h[0..2] == ha[0..2] && h[0..4] != ha[0..4] {
+                return (a, b, k);
+            }
+            j += 1;
+        }
+    })
+    .clone()
+}
+
+/// histories over keys whose buckets share index directories: what is done to one key's bucket (and to the directories
+/// above it) must not reach its neighbours
+pub fn gen_bucket_mates(check: &str, rng: &mut Rng) -> Value {
+    let (a, b, c) = bucket_mates();
+    let keys = vec![a, b, c];
+    let vals = vec![json!({"seed": rng.next_u64() >> 1, "len": 12}), json!({"seed": rng.next_u64() >> 1, "len": 30})];
+    let mut steps = Vec::new();
+    for ki in 0..3 {
+        let mut w = json!({"k":"api","op":"write","entry":"write","key":ki,"val":rng.below(2)});
+        set_flav(&mut w, flav(rng));
+        steps.push(w);
+    }
+    let n = rng.range(1, 4);
+    for _ in 0..n {
+        let ki = rng.idx(3);
+        let mut st = match rng.below(5) {
+            0 | 1 => json!({"k":"api","op":"remove_opts","fully":true,"key":ki}),
+            2 => json!({"k":"api","op":"remove","key":ki}),
+            3 => json!({"k":"api","op":"write","entry":"write","key":ki,"val":rng.below(2)}),
+            _ => json!({"k":"api","op":"remove_opts","fully":false,"key":ki}),
+        };
+        set_flav(&mut st, flav(rng));
+        steps.push(st);
+        let f = flav(rng);
+        steps.push(json!({"k":"audit","bin":f.0,"mode":f.1,"what":["metadata","read","list"]}));
+    }
+    scenario(check, keys, vals, steps, rng)
+}
+
 pub fn gen_c09(rng: &mut Rng) -> Value {
+    if rng.chance(1, 12) {
+        return gen_bucket_mates("C09", rng);
+    }
     if rng.chance(1, 10) {
         // neighbours in one content shard directory: removing one address (present, absent, twice) never touches the other
         let (a, b) = shard_mates();
